@@ -1,5 +1,5 @@
 """Recipe plug-in: C09 with the decoding half proved (coq/respdec composes the response-writer model coq/httpresp with the
-client-side parser model coq/http). Active only with VERIF_EXT_C09=1 (then it replaces the C09 recipe of props.py)."""
+client-side parser model coq/http). Integrated: replaces the C09 recipe of props.py (plug-ins are merged after it)."""
 import os
 
 from props import EXTRACT_TB, RESP_MODEL, n
@@ -17,15 +17,16 @@ def c09(c):
                   "decode theorems (coq/respdec): the decoder is nbio's own client parser MODEL (coq/http/HttpParser.v); its tie to nbhttp/parser.go is the "
                   "differential run of C06/C07/C08 (cmd/httpparse, cmd/httpref), the tie of the writer model to nbhttp/response.go is the differential run of this "
                   "check; the theorems connect the two models, not the two Go files",
-                  "decode theorems: the Date value is a 29-byte placeholder in the model (the harness masks the real date); header values are assumed non-empty "
-                  "(an empty value is rendered `Name: CRLF`, which the parser reports as a one-space value)"]
-    c.assumptions += ["c09_decode_*: well-formedness hypotheses wf_head / small_write / cl_ok / ok_run (decidable, stated in coq/respdec/C09Decode.v); "
-                      "identity framing without declared length and data after the first Flush is excluded (finding D9)"]
+                  "decode theorems: the Date value is a 29-byte placeholder in the model (the harness masks the real date); an empty header or trailer value "
+                  "is rendered `Name: CRLF`, which the parser model reports as a one-space value (stated as such in the theorems: hv / tr_value)"]
+    c.assumptions += ["c09_decode_*: decidable well-formedness hypotheses wf_head / small_write / cl_ok / wf_tkey / distinct_from / wf_tval (boolean, stated in "
+                      "coq/respdec/C09Decode.v); identity framing without declared length and data after the first Flush is excluded (finding D9); "
+                      "duplicate declared trailer keys are excluded (the parser's trailer set deduplicates, the writer model's list does not)"]
     c.harness("httpresp", ["-n", n(c, 220, 6000)], overlay=True, model=RESP_MODEL, timeout=3000)
     c.finish()
 
 
-if os.environ.get("VERIF_EXT_C09") == "1":
+if True:
     CHECKS = {"C09": c09}
     MANIFEST = {
         "C09": dict(
@@ -34,14 +35,19 @@ if os.environ.get("VERIF_EXT_C09") == "1":
             text="coq/httpresp (C09.v): nbhttp/response.go as a state machine over handler operations; for every request context, header operations and body program the wire is "
                  "head ++ chunks ++ last-chunk ++ trailers ++ CRLF (chunked) resp. head ++ written bytes (identity), nothing buffered, Write reports len(data), a refused Write writes nothing. "
                  "coq/respdec (C09Decode.v) composes this with nbio's own client parser model (coq/http): c09_head_wf (the head is exactly status line ++ header lines ++ CRLF, lines listed "
-                 "explicitly), c09_chunked_wire_explicit / c09_identity_wire_explicit (the wire with the head and the trailer block made explicit), c09_run_hdrs_any (parser over a header block "
-                 "with lines of any names in any order), c09_decode_chunked_notrailers_partial and c09_decode_identity: started in any client boundary state on wire ++ rest the parser emits exactly "
-                 "EProto, EStatus, one EHeader per head line, EContentLength, the body events (one EBody per non-empty Write resp. one EBody with all bytes), EComplete, and continues on rest from a "
-                 "boundary state - exactly one well-formed response; corollaries c09_decoded_body_*: concatenated EBody payloads = written bytes, announced Content-Length = body length, one EComplete. "
+                 "explicitly: Content-Type, computed Content-Length, Connection: close, Date, declared Content-Length, Trailer lines, Transfer-Encoding, custom headers), "
+                 "c09_chunked_wire_explicit / c09_identity_wire_explicit (the wire with the head and the trailer block made explicit), c09_run_hdrs_any / c09_run_lines_any (the parser over a header "
+                 "block with lines of any names in any order, values possibly empty), c09_decode_chunked (with or without declared trailers; the trailer block runs through the parser's STrailer* "
+                 "states), c09_decode_chunked_notrailers_partial (its instance without trailers) and c09_decode_identity: started in any client boundary state on wire ++ rest the parser emits "
+                 "exactly EProto, EStatus, one EHeader per head line, EContentLength, the body events (one EBody per non-empty Write resp. one EBody with all bytes), one ETrailer per declared "
+                 "trailer, EComplete, and continues on rest from a boundary state - exactly one well-formed response; corollaries c09_decoded_body_*: concatenated EBody payloads = written bytes, "
+                 "announced Content-Length = body length, one EComplete, trailers = the handler's; c09_cl_ok_no_refusal (meeting the announced length implies no Write is refused); "
+                 "c09_after_headers_fields (request context, custom headers, declared trailer keys of the state the theorems speak about). "
                  "The implementation-side oracle (net/http decodes the recorded wire) and the model correspondence run on generated programs aimed at the 64 KiB threshold.",
-            note="Partial: chunked decode theorem without declared trailers (…_notrailers_partial) unless c09_decode_chunked_trailers is listed; identity framing needs the announced length to be met "
-                 "(cl_ok: handler obligation for a declared Content-Length; without one no data after the first Flush - finding D9). ReadFrom/Sendfile path not covered. "
-                 "Trusted: Coq kernel, extraction, OCaml driver, Go harness, net/http's client parser (oracle), the parser model's tie to parser.go (C06/C07 differential).",
+            note="Decode theorems hold under decidable well-formedness hypotheses (token header names other than the framing headers, values without CR/LF not starting with SP, status 100..999, "
+                 "Writes and lengths below 2^62, distinct declared trailer keys); identity framing needs the announced length to be met (cl_ok: handler obligation for a declared Content-Length; "
+                 "without one no data after the first Flush - finding D9). They connect the two MODELS; each model's tie to its Go file is the differential run (C09 harness, C06/C07 harness). "
+                 "ReadFrom/Sendfile path not covered. Trusted: Coq kernel, extraction, OCaml driver, Go harness, net/http's client parser (oracle).",
             design="4/C09, Appendix O"),
     }
 else:
